@@ -22,22 +22,25 @@ import (
 
 // Call is one logged backend call.
 type Call struct {
-	Seq     int    // 1-based global call index
-	Handle  int    // receiver handle id (0 for Attach)
-	Op      string // method name
-	Path    string // receiver's path string at entry
-	Kind    uint32 // file type the receiver was created with
-	Name    string // name argument (create/mkdir/.../unlinkat/renameat old name)
-	Name2   string // second name (renameat new name, symlink target)
-	Names   []string
-	Other   int // second handle (Link target, RenameAt new dir, Renamed parent)
-	Args    []uint64
-	Data    []byte // copied payload / xattr value
-	New     int    // id of a handle this call created (0 if none)
-	Errno   int    // result errno (0 = success); -1 while running
-	Closed  bool   // receiver was already closed at entry (use after close)
-	Armed   bool   // a request was outstanding when the call was made
-	exitSeq int
+	Seq         int    // 1-based global call index
+	Handle      int    // receiver handle id (0 for Attach)
+	Op          string // method name
+	Path        string // receiver's path string at entry
+	Kind        uint32 // file type the receiver was created with
+	Name        string // name argument (create/mkdir/.../unlinkat/renameat old name)
+	Name2       string // second name (renameat new name, symlink target)
+	Names       []string
+	Other       int // second handle (Link target, RenameAt new dir, Renamed parent)
+	Args        []uint64
+	Data        []byte         // copied payload / xattr value
+	obj         *memtree.Inode // the object the File stands for (monitor)
+	victim      *memtree.Inode // UnlinkAt: the object about to be removed (monitor)
+	victimKnown bool
+	New         int  // id of a handle this call created (0 if none)
+	Errno       int  // result errno (0 = success); -1 while running
+	Closed      bool // receiver was already closed at entry (use after close)
+	Armed       bool // a request was outstanding when the call was made
+	exitSeq     int
 }
 
 func (c *Call) String() string {
@@ -64,6 +67,15 @@ func (c *Call) String() string {
 type Fault struct {
 	Panic bool
 	Err   error // returned when !Panic
+}
+
+// StepCall is a backend call stopped by the stepper, at its entry or (UnlinkAt
+// and RenameAt only: Exit) after it has changed the tree and before it returns
+// to the server; closing Go lets it proceed.
+type StepCall struct {
+	C    *Call
+	Exit bool
+	Go   chan struct{}
 }
 
 // Gate holds matching calls inside the backend until released.
@@ -120,6 +132,7 @@ type FS struct {
 	armedSeq      int              // number of calls made while armed
 	faultArmedIdx map[int]Fault    // by armed-call index (1-based)
 	faultNext     map[string]Fault // one-shot, by "Op path"
+	stepper       chan *StepCall   // when set, every call stops at its entry and is announced here
 	// IOUnit is what Open and Create announce as iounit (0: nothing, as most backends)
 	IOUnit  uint32
 	Perturb func(c *Call)
@@ -222,6 +235,25 @@ func split(path string) []string {
 
 // enter logs the call, applies the fault plan, runs the monitor and gates.
 func (fs *FS) enter(h *Handle, c *Call) *Fault {
+	if h != nil && fs.opts.Monitor {
+		// which object the File stands for, and which object an UnlinkAt is about to
+		// remove: the monitor compares objects, not path strings (a File on a
+		// deleted entry keeps a path that a new entry may have taken since)
+		h.mu.Lock()
+		c.obj = h.born
+		hp := h.path
+		h.mu.Unlock()
+		if c.Op == "UnlinkAt" {
+			fs.treeMu.Lock()
+			if dir, e := fs.Tree.Resolve(split(hp)); e == 0 {
+				c.victimKnown = true // victim stays nil when there is no such entry
+				if v, e := memtree.Lookup(dir, c.Name); e == 0 {
+					c.victim = v
+				}
+			}
+			fs.treeMu.Unlock()
+		}
+	}
 	fs.mu.Lock()
 	fs.seq++
 	c.Seq = fs.seq
@@ -285,8 +317,14 @@ func (fs *FS) enter(h *Handle, c *Call) *Fault {
 		}
 	}
 	perturb := fs.Perturb
+	stepper := fs.stepper
 	fs.mu.Unlock()
 	fs.checkFenced(h, c)
+	if stepper != nil {
+		sc := &StepCall{C: c, Go: make(chan struct{})}
+		stepper <- sc
+		<-sc.Go
+	}
 	for _, g := range hold {
 		select {
 		case g.Entered <- c:
@@ -321,6 +359,17 @@ func (fs *FS) after(c *Call) {
 }
 
 func (fs *FS) exit(c *Call, errno int) {
+	if c.Op == "UnlinkAt" || c.Op == "RenameAt" {
+		fs.mu.Lock()
+		stepper := fs.stepper
+		fs.mu.Unlock()
+		if stepper != nil {
+			// the entry is gone (or moved) and the server has not been told yet
+			sc := &StepCall{C: c, Exit: true, Go: make(chan struct{})}
+			stepper <- sc
+			<-sc.Go
+		}
+	}
 	fs.mu.Lock()
 	c.Errno = errno
 	delete(fs.active, c)
@@ -396,6 +445,16 @@ func ErrnoOf(err error) int {
 func (fs *FS) ResetIO() {
 	fs.mu.Lock()
 	fs.ioIdx = 0
+	fs.mu.Unlock()
+}
+
+// SetStepper makes every backend call stop at its entry (it counts as inside
+// the backend from then on) and announce itself on ch; the owner of ch decides
+// which of the stopped calls proceeds next by closing its Go. nil switches the
+// stepper off (calls already stopped stay stopped until their Go is closed).
+func (fs *FS) SetStepper(ch chan *StepCall) {
+	fs.mu.Lock()
+	fs.stepper = ch
 	fs.mu.Unlock()
 }
 
@@ -568,13 +627,23 @@ func Conflict(a, b *Call) string {
 	if ca == "global" || cb == "global" {
 		return "global"
 	}
-	if (ca == "write" || cb == "write") && a.Path == b.Path {
+	same := a.Path == b.Path
+	if a.obj != nil && b.obj != nil {
+		same = a.obj == b.obj
+	}
+	if (ca == "write" || cb == "write") && same {
 		return "same-path"
 	}
-	if a.Op == "UnlinkAt" && b.Path == a.Path+"/"+a.Name {
-		return "unlinked-entry"
+	victimOf := func(u, o *Call) bool {
+		if u.Op != "UnlinkAt" {
+			return false
+		}
+		if u.victimKnown && (u.victim == nil || o.obj != nil) {
+			return u.victim != nil && o.obj == u.victim
+		}
+		return o.Path == u.Path+"/"+u.Name
 	}
-	if b.Op == "UnlinkAt" && a.Path == b.Path+"/"+b.Name {
+	if victimOf(a, b) || victimOf(b, a) {
 		return "unlinked-entry"
 	}
 	return ""
